@@ -213,6 +213,21 @@ func (ex *Exec) closeLoop(li *loopInfo, st *State, g T) {
 		o := vc.oblige("inv-pres", fmt.Sprintf("inv-pres:%s/loop%d#%s", ex.conName(), li.ordinal, label), g, t, ex.pos(token.NoPos))
 		o.SetNote(inv.Src)
 	}
+	for i, sc := range lc.Steps {
+		env.inStep = true
+		t, err := env.evalBool(sc.Expr)
+		env.inStep = false
+		if err != nil {
+			ex.fail("loop %d step %q: %v", li.ordinal, sc.Src, err)
+			continue
+		}
+		label := sc.Label
+		if label == "" {
+			label = fmt.Sprintf("%d", i+1)
+		}
+		o := vc.oblige("inv-pres", fmt.Sprintf("step:%s/loop%d#%s", ex.conName(), li.ordinal, label), g, t, ex.pos(token.NoPos))
+		o.SetNote(sc.Src)
+	}
 	for _, h := range li.frameHeaps {
 		srt := ex.heapR.sorts[h]
 		q := vc.fresh("fr", SInt)
